@@ -73,6 +73,7 @@ def c01(ctx, v):
     if B:
         B.r_units(ctx, v, only=lambda f: f.key.startswith("priority_queue::"))
     representation(ctx, v)
+    M.r_strat(ctx, v)   # append: whole stores are exchanged (never handles), `other` is left empty - or IT holds unsifted elements
     ctx.floor("R-RESTORE[PriorityQueue]", sum(1 for o in ctx.obs if o.rule == "R-RESTORE" and o.config == v.config), 15)
 
 
@@ -93,6 +94,7 @@ def representation(ctx, v):
     if S:
         S.r_prim(ctx, v)
     dbgpure_once(ctx, v, ("TW", "MW", "KEYMUT", "CMP", "MRUC"))
+    D.r_newtypeord(ctx, v)
 
 
 def c02(ctx, v):
@@ -105,6 +107,7 @@ def c02(ctx, v):
     if B:
         B.r_units(ctx, v, only=lambda f: f.key.startswith("double_priority_queue::"))
     representation(ctx, v)
+    M.r_strat(ctx, v)
     ctx.floor("R-RESTORE[DoublePriorityQueue]", sum(1 for o in ctx.obs if o.rule == "R-RESTORE" and o.config == v.config), 15)
 
 
@@ -167,6 +170,7 @@ def r_absent(ctx, v):
 
 def c04(ctx, v):
     fixture_once(ctx, ["R-UNSAFEKINDS", "R-HINT", "R-ORDERPANIC"])
+    D.r_newtypeord(ctx, v)
     if B:
         B.r_orderpanic(ctx, v)
     dbgpure_once(ctx, v, ("TW", "MW", "KEYMUT", "CMP", "MRUC"))
@@ -417,9 +421,15 @@ PROPS = {
     "C10": {"rules": [c10], "explanation":
             "R-TORN: by parametricity a panic can start only at a call site that may run user code; the table-consistency automaton shows that at "
             "every such site on every feasible path of every table-writing body of a published store no growth/shrink/reset group is open, no "
-            "slot index is duplicated (moving hole) and no raw write lacks its inverse-table counterpart; R-DROPLESS (no destructor is relied "
-            "on), R-UNSAFEKINDS + Copy tables (no double drop / leak by ownership), R-RESET for drain.",
-            "trusted": [TRUST_RUSTC, "indexmap stays memory safe when a user callback unwinds"], "assumptions": ["panics in user Drop impls are outside the property"]},
+            "slot index is duplicated (moving hole) and no raw write lacks its inverse-table counterpart.  Map calls are classified by where their "
+            "user code runs: before the structural write (U;W: insert, entry, swap_remove_full, contains_key ...) or DURING it (W;U: retain*, "
+            "clone_from, sort_by*, dedup_by*, extend, extract_if) - user code inside a map's own update is a violation, because the map does not restore "
+            "its hash table when the callback unwinds and its later operations can then panic half-way (defect D8, repaired); R-DROPLESS (no "
+            "destructor is relied on), R-UNSAFEKINDS + Copy tables (no double drop / leak by ownership), R-RESET for drain; R-DBGPURE (the debug "
+            "build adds no writes and no user code).",
+            "trusted": [TRUST_RUSTC, "indexmap stays MEMORY SAFE when a user callback unwinds (not: consistent - see D8)",
+                        "indexmap's U;W calls finish their lookup before they mutate"],
+            "assumptions": ["panics in user Drop impls are outside the property"]},
     "C11": {"rules": [c11], "explanation":
             "R-STRICT: exactly one priority comparison, normalised for operand order, strict and in the right direction between the offered "
             "priority and the stored one; absent item is pushed; true edge returns push(item, priority), false edge is effect-free and returns "
